@@ -166,6 +166,25 @@ class Fn:
             r = self.fresh()
             binds.append((r, "py_eun vnorm %s" % a))
             return r, WVEC
+        if isinstance(node, ast.Call) and isinstance(node.func, ast.Name) and node.func.id == "value__" and len(node.args) == 1 and not node.keywords:
+            # <timeslice>[0].value, renamed by the fragment selector: subscripting None raises TypeError
+            a, ta = self.expr(node.args[0], env, binds)
+            if ta != OPTELT:
+                raise TranslateError("%s: central value of %s" % (self.name, ta))
+            r = self.fresh()
+            binds.append((r, "py_eun evalue %s" % a))
+            return r, FLOAT
+        if isinstance(node, ast.Call) and isinstance(node.func, ast.Name) and node.func.id == "root__" and len(node.args) == 3 and not node.keywords:
+            # np.abs(find_root(C(t)[0] / C(t+1)[0], root_function, guess=guess)) at timeslice t, renamed by the fragment selector
+            args = [self.expr(a, env, binds) for a in node.args]
+            if [ty for _, ty in args] != [OPTELT, OPTELT, INT]:
+                raise TranslateError("%s: root of %s" % (self.name, [ty for _, ty in args]))
+            names = []
+            for a, _ in args[:2]:
+                r = self.fresh()
+                binds.append((r, "py_eun (fun x_ => x_) %s" % a))
+                names.append(r)
+            return "(eroot %s %s %s)" % (names[0], names[1], args[2][0]), ELT
         if isinstance(node, ast.Call) and isinstance(node.func, ast.Name) and node.func.id == "sandwich__" and len(node.args) == 3 and not node.keywords:
             # np.asarray([l.T @ G @ r]), renamed by the fragment selector; operands evaluated left to right, None raises
             args = [self.expr(a, env, binds) for a in node.args]
@@ -284,6 +303,13 @@ class Fn:
             if ta not in (OPTELT, OPTW):
                 raise TranslateError("%s: `is None` on %s" % (self.name, ta))
             return ("(is_none %s)" if op is ast.Is else "(negb (is_none %s))") % a, BOOL
+        if op is ast.In and isinstance(right, ast.List) and right.elts:
+            # x in [a, b, ..] over numbers: x == a or x == b or .. (no element can raise here: all are evaluated when the list is built)
+            a, ta = self.expr(left, env, binds)
+            es = [self.expr(e, env, binds) for e in right.elts]
+            if ta not in (INT, FLOAT) or any(te not in (INT, FLOAT) for _, te in es):
+                raise TranslateError("%s: membership in a list of %s" % (self.name, [te for _, te in es]))
+            return "(" + " || ".join("(Qeqb %s %s)" % (self.coerce(a, ta, FLOAT), self.coerce(e, te, FLOAT)) for e, te in es) + ")", BOOL
         a, ta = self.expr(left, env, binds)
         b, tb = self.expr(right, env, binds)
         if ta == INT and tb == INT:
@@ -1570,6 +1596,53 @@ class _RewriteProjection(ast.NodeTransformer):
         return self.generic_visit(node)
 
 
+class _RewriteMeffRoot(ast.NodeTransformer):
+    """self.content[k][0].value -> value__(self.content[k]);  np.abs(find_root(self.content[t][0] / self.content[t + 1][0], root_function, guess=guess))
+    -> root__(self.content[t], self.content[t + 1], t);  variant == 'sinh' -> is_sinh."""
+    def visit_Attribute(self, node):
+        if node.attr == "value" and isinstance(node.value, ast.Subscript) and isinstance(node.value.slice, ast.Constant) and node.value.slice.value == 0 \
+                and isinstance(node.value.value, ast.Subscript) and _d(node.value.value.value) == _d(ast.parse("self.content", mode="eval").body):
+            return ast.Call(func=ast.Name(id="value__", ctx=ast.Load()), args=[node.value.value], keywords=[])
+        return self.generic_visit(node)
+
+    def visit_Call(self, node):
+        want = ast.parse("np.abs(find_root(self.content[t][0] / self.content[t + 1][0], root_function, guess=guess))", mode="eval").body
+        if _d(node) == _d(want):
+            return ast.parse("root__(self.content[t], self.content[t + 1], t)", mode="eval").body
+        return self.generic_visit(node)
+
+    def visit_Compare(self, node):
+        if _d(node) == _d(ast.parse("variant == 'sinh'", mode="eval").body):
+            return ast.Name(id="is_sinh", ctx=ast.Load())
+        return self.generic_visit(node)
+
+
+def frag_meff_root_loop(fn):
+    """Corr.m_eff, branch `elif variant in ['periodic', 'cosh', 'sinh']:` -- the loop that decides, timeslice by timeslice, between undefined,
+    filled with the predecessor, and the root of the documented ratio equation.  The selector also checks the equation that is solved."""
+    import copy
+    want = _d(ast.parse("variant in ['periodic', 'cosh', 'sinh']", mode="eval").body)
+    hits = [x for x in ast.walk(fn) if isinstance(x, ast.If) and _d(x.test) == want]
+    if len(hits) != 1:
+        raise TranslateError("Corr.m_eff: the branch of the root variants was not found exactly once")
+    body = hits[0].body
+    rf = [st for st in body if isinstance(st, ast.FunctionDef) and st.name == "root_function"]
+    want_rf = ast.parse("def root_function(x, d):\n    return func(x * (t - self.T / 2)) / func(x * (t + 1 - self.T / 2)) - d").body[0]
+    if len(rf) != 1 or _d(rf[0]) != _d(want_rf):
+        raise TranslateError("Corr.m_eff: root_function is not func(x (t - T/2)) / func(x (t + 1 - T/2)) - d")
+    sel = [st for st in body if isinstance(st, ast.If) and _d(st.test) == _d(ast.parse("variant in ['periodic', 'cosh']", mode="eval").body)]
+    want_sel = ast.parse("if variant in ['periodic', 'cosh']:\n    func = anp.cosh\nelse:\n    func = anp.sinh").body[0]
+    if len(sel) != 1 or _d(sel[0]) != _d(want_sel):
+        raise TranslateError("Corr.m_eff: func is not anp.cosh for periodic / cosh and anp.sinh for sinh")
+    init = [i for i, st in enumerate(body) if _d(st) == _d(ast.parse("newcontent = []").body[0])]
+    if len(init) != 1 or init[0] + 1 >= len(body) or not isinstance(body[init[0] + 1], ast.For):
+        raise TranslateError("Corr.m_eff: `newcontent = []` followed by the loop over the timeslices was not found")
+    if any(isinstance(n, ast.Name) and n.id in ("newcontent", "t") and isinstance(n.ctx, ast.Store) for st in body[:init[0]] for n in ast.walk(st)):
+        raise TranslateError("Corr.m_eff: newcontent / t assigned before the loop")
+    stmts = [_RewriteMeffRoot().visit(copy.deepcopy(st)) for st in body[init[0]:init[0] + 2]]
+    return [ast.fix_missing_locations(st) for st in stmts] + [ast.Return(value=ast.Name(id="newcontent", ctx=ast.Load()))]
+
+
 def frag_projected_lists(fn):
     """Corr.projected: the branch for one vector pair per timeslice (the `else:` of `if not isinstance(vector_l, list):`), up to the new content."""
     import copy
@@ -1640,6 +1713,10 @@ CORR_SIGS = [
     dict(coq="corr_mul_corr", py="Corr.__mul__", fragment=frag_corr_corr_branch, params=[], ret=CONTENT,
          extra_params=[("v_content", CONTENT), ("v_N", INT), ("v_ycontent", CONTENT), ("v_yN", INT)], aliases=_CORR_ALIASES, hints={"newcontent": CONTENT}, **_CORR),
 ]
+MEFF_SIGS = [
+    dict(coq="m_eff_root_loop", py="Corr.m_eff", fragment=frag_meff_root_loop, params=[], ret=CONTENT, file="correlators.py", section="meffroot",
+         extra_params=[("v_content", CONTENT), ("v_is_sinh", BOOL)], env={"is_sinh": BOOL}, aliases=_CORR_ALIASES, hints={"newcontent": CONTENT}),
+]
 PROJ_SIGS = [
     dict(coq="corr_projected_lists", py="Corr.projected", fragment=frag_projected_lists, params=[], ret=CONTENT, file="correlators.py", section="proj",
          extra_params=[("v_content", CONTENT), ("v_vector_l", OPTWLIST), ("v_vector_r", OPTWLIST), ("v_normalize", BOOL)],
@@ -1653,6 +1730,7 @@ SORT_SIGS = [
 ]
 SECTION_HEADERS = {
     "sortvec": ["Section SortVec.", "Variables V M : Type.", "Variable rowset : M -> Z -> V -> M.", "Variable absdet : M -> Q."],
+    "meffroot": ["Section MeffRoot.", "Variable E : Type.", "Variable evalue : E -> Q.", "Variable eroot : E -> E -> Z -> E."],
     "proj": ["Section ProjOps.", "Variables E W : Type.", "Variable vnorm : W -> W.", "Variable sandwich : W -> E -> W -> E."],
     "corr": ["Section CorrOps.", "Variables E S : Type.", "Variables eadd esub emul ediv : E -> E -> E.", "Variable escale : Q -> E -> E.",
              "Variables eaddS emulS edivS : E -> S -> E.", "Variable Y : Type.", "Variable efirst : E -> Y.", "Variable ymean : list Y -> Y."],
@@ -1665,7 +1743,7 @@ def translate_source(src, sigs=None, only=None, sources=None):
     trees = {"obs.py": tree}
     for fn_, tx_ in (sources or {}).items():
         trees[fn_] = ast.parse(tx_)
-    sigs = sigs or (SIGS + CORR_SIGS + SORT_SIGS + PROJ_SIGS)
+    sigs = sigs or (SIGS + CORR_SIGS + SORT_SIGS + PROJ_SIGS + MEFF_SIGS)
 
     out = ["(* GENERATED by translate/t_pycore.py from pyerrors/obs.py -- do not edit *)",
            "From Coq Require Import ZArith QArith Qabs List Bool.",
